@@ -81,7 +81,9 @@ func (x *Exec) callStatic(fr *Frame, st *State, fn *ssa.Function, args []Value, 
 	con := x.prog.Cons.ByKey[key]
 	inMain := x.prog.inMain(fn)
 	if con != nil && !con.Inline {
-		if con.Extern || con.Trusted {
+		if con.Trusted && !con.Extern {
+			x.assumedExtern["trusted-contract-of-this-package(not proved):"+key]++
+		} else if con.Extern || con.Trusted {
 			x.assumedExtern["contract:"+key]++
 		}
 		return x.applyContract(fr, st, fn, con, args)
